@@ -24,7 +24,11 @@ use std::time::Instant;
 use worlds::{Tier, UnitReport};
 
 const DEFAULT_SEED: u64 = 20260925;
-const VERIF_DIR: &str = "/verif";
+/// Where known_findings.txt is read and replays/ and evidence/ are written: /verif, unless
+/// VERIF_HOME points a background sweep at its own snapshot.
+fn verif_dir() -> String {
+    std::env::var("VERIF_HOME").unwrap_or_else(|_| "/verif".to_string())
+}
 
 thread_local! {
     static LAST_PANIC: std::cell::RefCell<String> = const { std::cell::RefCell::new(String::new()) };
@@ -62,7 +66,7 @@ fn units_for(prop: &str, tier: Tier) -> u64 {
 
 fn wall_cap_secs(tier: Tier) -> u64 {
     match tier {
-        Tier::Quick => 1_500,
+        Tier::Quick => 900,
         Tier::Thorough => 6 * 3600,
     }
 }
@@ -103,6 +107,10 @@ fn run_units(prop: &str, seed: u64, units: u64, tier: Tier, threads: usize) -> V
                 if i as u64 >= units {
                     break;
                 }
+                let trace = std::env::var("VERIF_TRACE_UNITS").is_ok();
+                if trace {
+                    eprintln!("unit {i} start");
+                }
                 let rep = match std::panic::catch_unwind(std::panic::AssertUnwindSafe(|| {
                     explore(prop, seed, i as u64, tier)
                 })) {
@@ -116,6 +124,9 @@ fn run_units(prop: &str, seed: u64, units: u64, tier: Tier, threads: usize) -> V
                         r
                     }
                 };
+                if trace {
+                    eprintln!("unit {i} end");
+                }
                 *slots[i].lock().unwrap() = Some(rep);
             });
         }
@@ -179,7 +190,7 @@ fn check(prop: &str, tier: Tier) -> CheckOutcome {
         std::process::exit(2);
     });
 
-    let known = match known::load(&format!("{VERIF_DIR}/known_findings.txt")) {
+    let known = match known::load(&format!("{}/known_findings.txt", verif_dir())) {
         Ok(k) => k,
         Err(e) => {
             eprintln!("HARNESS-ERROR: {e}");
@@ -278,10 +289,11 @@ fn check(prop: &str, tier: Tier) -> CheckOutcome {
             case: min_case.clone(),
         };
         let path = format!(
-            "{VERIF_DIR}/replays/{prop}-{seed}-{i}-{}.json",
+            "{}/replays/{prop}-{seed}-{i}-{}.json",
+            verif_dir(),
             v.class.replace([':', '/', ' '], "_")
         );
-        let _ = std::fs::create_dir_all(format!("{VERIF_DIR}/replays"));
+        let _ = std::fs::create_dir_all(format!("{}/replays", verif_dir()));
         if let Err(e) = std::fs::write(&path, serde_json::to_string_pretty(&file).unwrap()) {
             harness_errors.push(format!("cannot write replay file {path}: {e}"));
             continue;
@@ -375,8 +387,8 @@ fn check(prop: &str, tier: Tier) -> CheckOutcome {
         "wall_s": wall,
         "violations": violation_lines,
     });
-    let _ = std::fs::create_dir_all(format!("{VERIF_DIR}/evidence"));
-    let epath = format!("{VERIF_DIR}/evidence/{prop}.json");
+    let _ = std::fs::create_dir_all(format!("{}/evidence", verif_dir()));
+    let epath = format!("{}/evidence/{prop}.json", verif_dir());
     if let Err(e) = std::fs::write(&epath, serde_json::to_string_pretty(&evidence).unwrap()) {
         eprintln!("HARNESS-ERROR: cannot write {epath}: {e}");
         exit = 2;
@@ -527,6 +539,18 @@ fn main() {
                 let r = solvers::run(&m, &cfg);
                 println!("{:45} reads={:3} {:?}", e.name(), r.clock.reads, r.outcome);
             }
+            0
+        }
+        Some("show-unit") => {
+            // triage helper: print the model / case a unit would explore (no solving)
+            let prop = args.get(2).expect("property id");
+            let index: u64 = args.get(3).expect("unit index").parse().expect("index");
+            let seed: u64 = std::env::var("VERIF_SEED")
+                .ok()
+                .and_then(|s| s.parse().ok())
+                .unwrap_or(DEFAULT_SEED);
+            let unit_seed = rng::run_seed(seed, prop_world(prop), index);
+            println!("{}", worlds::describe_unit(prop, unit_seed, index));
             0
         }
         Some("digest") => {
